@@ -2,7 +2,7 @@
 (* G (and M) for C17: TLC enumerates modules that are well typed by construction and prints each
    as an AST (JSON) with, per module-level binding, its type according to the specification;
    the invariant ModuleWT checks every one of them against the declarative typing judgement.
-   State n = the n-th module.  Modules 1..NExh walk the exhaustive item list (every signature on
+   State modno = the modno-th module.  Modules 1..NExh walk the exhaustive item list (every signature on
    canonical leaves, every comprehension form, every statement template, and every PAIR
    context[producer] -- strided by PairStride in the quick tier); modules after that are
    pseudo-random deeper ones, a pure function of (Seed, n). *)
@@ -33,15 +33,18 @@ FreshPairsOf(l) == LET I == Gen1[Fresh(l)]  C == FreshCtx[l] IN
 LTS == SetToSeq(ListTs)
 PairExprs == FlattenSeq([ti \in 1..Len(HoleTs) |-> PairsOf(HoleTs[ti])])
              \o FlattenSeq([ti \in 1..Len(LTS) |-> FreshPairsOf(LTS[ti])])
-PairSel == SelectSeq([i \in 1..Len(PairExprs) |-> [i |-> i, e |-> PairExprs[i]]],
-                     LAMBDA p : p.i % PairStride = PairOffset % PairStride)
-ItemsPair == [i \in 1..Len(PairSel) |-> Item(PairSel[i].e.ty, Alt(PairSel[i].i, PairSel[i].e), "g2")]
-
 \* statement templates
 ItemsIf == FlattenSeq([ti \in 1..Len(UTR) |-> LET t == UTR[ti] IN
               <<Item(t, B_IfAssign(Leaf(BoolT, 1), Leaf(t, 1), Leaf(t, 2)), "if-assign"),
                 Item(t, B_IfReturn(Leaf(BoolT, 1), Leaf(t, 1), Leaf(t, 2)), "if-return"),
                 Item(t, B_IfElseReturn(Leaf(BoolT, 2), Leaf(t, 2), Leaf(t, 1)), "if-else-return")>>])
+\* subsumption into None | t at a return
+OTS == SetToSeq(OptTs)
+ItemsOpt == FlattenSeq([ti \in 1..Len(OTS) |-> LET o == OTS[ti] IN
+              <<Item(o, B_Ret(Leaf(o.a[1], 1)), "opt-return"),
+                Item(o, B_Ret(NoneLit), "opt-return"),
+                Item(o, B_IfReturn(Leaf(BoolT, 1), NoneLit, Leaf(o.a[1], 2)), "opt-return"),
+                Item(o, B_IfAssign(Leaf(BoolT, 1), Leaf(o, 1), NoneLit), "opt-return")>>])
 ItemsTwo == FlattenSeq([ti \in 1..Len(UTR) |-> LET t == UTR[ti]
                                                   C == SelectSeq(Ctx[t], LAMBDA c : SigSeq[c[1]].res \in U)
                                                   I == Gen1[t] IN
@@ -57,19 +60,37 @@ UnpackOver(e) == LET A == BodiesOver(Var("ua", e.ty.a[1]))  B == BodiesOver(Var(
 ItemsUnpack == SelectSeq(UnpackOver(PVar(TSI, 1)) \o UnpackOver(PVar(TIS, 1)) \o UnpackOver(Gen1[TSI][1]),
                          LAMBDA it : it.ret \in U)
 ITS == SetToSeq(IterTs)
-LoopsOver(it) == LET lv == LoopVarOf(ElemOfIter(it))
-                     B == SelectSeq(BodiesOver(lv), LAMBDA e : e.ty \in AccTs) IN
-    [i \in 1..Len(B) |-> Item(B[i].ty,
-        CASE i % 4 = 0 -> B_LoopIf(IterLeaf(it), lv, B[i], Leaf(BoolT, 1))
-          [] i % 4 = 1 -> B_LoopAug(IterLeaf(it), lv, B[i])
-          [] OTHER -> B_Loop(IterLeaf(it), lv, B[i]), "loop")]
-ItemsLoop == FlattenSeq([i \in 1..Len(ITS) |-> LoopsOver(ITS[i])])
-    \o <<Item(IntT, B_Loop2(PVar(ListT(TSI), 1), Var("fv", IntT)), "loop-unpack"),
+LoopBodies(it) == SelectSeq(BodiesOver(LoopVarOf(ElemOfIter(it))), LAMBDA e : e.ty \in AccTs)
+LoopItem(it, i) == LET lv == LoopVarOf(ElemOfIter(it))  b == LoopBodies(it)[i] IN
+    Item(b.ty,
+        CASE i % 4 = 0 -> B_LoopIf(IterLeaf(it), lv, b, Leaf(BoolT, 1))
+          [] i % 4 = 1 -> B_LoopAug(IterLeaf(it), lv, b)
+          [] OTHER -> B_Loop(IterLeaf(it), lv, b), "loop")
+LoopCounts == [i \in 1..Len(ITS) |-> Len(LoopBodies(ITS[i]))] \o <<>>
+Loop2Items ==
+      <<Item(IntT, B_Loop2(PVar(ListT(TSI), 1), Var("fv", IntT)), "loop-unpack"),
          Item(StrT, B_Loop2(Ex("meth", "items", 0, <<PVar(DictT(StrT, IntT), 1)>>, ListT(TSI), "dict.items"), Var("fk", StrT)), "loop-unpack"),
          Item(StrT, B_Loop2(PVar(ListT(TSI), 2), Ex("bin", "*", 0, <<Var("fk", StrT), Var("fv", IntT)>>, StrT, "str*int")), "loop-unpack")>>
+RECURSIVE SumSeq(_, _)
+SumSeq(sq, j) == IF j = 0 THEN 0 ELSE sq[j] + SumSeq(sq, j - 1)
+NLoop == SumSeq(LoopCounts, Len(LoopCounts))
+RECURSIVE LoopFind(_, _)
+LoopFind(k, j) == IF k <= LoopCounts[j] THEN LoopItem(ITS[j], k) ELSE LoopFind(k - LoopCounts[j], j + 1)
 
-Items == ItemsG1 \o ItemsComp \o ItemsIf \o ItemsTwo \o ItemsAug \o ItemsUnpack \o ItemsLoop \o ItemsPair
-NItems == Len(Items)
+(* The item list is never materialised as one sequence (TLC does not reliably keep large derived
+   constants; segments are looked up by index instead) *)
+SegA == ItemsG1 \o ItemsComp \o ItemsIf \o ItemsOpt \o ItemsTwo \o ItemsAug \o ItemsUnpack \o Loop2Items
+NSegA == Len(SegA)
+NCore == NSegA + NLoop
+CoreAt(i) == IF i <= NSegA THEN SegA[i] ELSE LoopFind(i - NSegA, 1)
+NPairs == Len(PairExprs)
+\* the selected pairwise items: PairExprs[off + 1 + k * PairStride]
+POff == PairOffset % PairStride
+NSel == IF NPairs <= POff THEN 0 ELSE (NPairs - POff + PairStride - 1) \div PairStride
+NItems == NCore + NSel
+ItemAt(i) == IF i <= NCore THEN CoreAt(i)
+             ELSE LET p == POff + 1 + (i - NCore - 1) * PairStride IN
+                  Item(PairExprs[p].ty, Alt(p, PairExprs[p]), "g2")
 NExh == (NItems + K - 1) \div K
 NMods == NExh + NRand
 
@@ -78,7 +99,7 @@ ModExprs == FlattenSeq([ti \in 1..Len(UTR) |-> Gen1[UTR[ti]]]) \o AllComps
 ExhModule(n) ==
     LET lo == (n - 1) * K
         cnt == IF lo + K <= NItems THEN K ELSE NItems - lo
-        defs == [j \in 1..cnt |-> MkDef("f" \o ToString(j), Items[lo + j].ret, Items[lo + j].body, Items[lo + j].tag)]
+        defs == [j \in 1..cnt |-> LET it == ItemAt(lo + j) IN MkDef("f" \o ToString(j), it.ret, it.body, it.tag)]
         ex == [j \in 1..3 |-> ModExprs[((3 * (n + Seed) + j) % Len(ModExprs)) + 1]] IN
     Module(n, defs, ex, "exh")
 RandModule(n) ==
@@ -88,17 +109,19 @@ RandModule(n) ==
     Module(n, defs, ex, "rand")
 ModuleN(n) == IF n <= NExh THEN ExhModule(n) ELSE RandModule(n)
 
-VARIABLE n
-Init == n \in 1..NMods
-Next == UNCHANGED n
+\* (the variable must not share its name with any bound identifier used above: TLC would stop
+\*  treating those definitions as constants and re-evaluate them at every use)
+VARIABLE modno
+Init == modno \in 1..NMods
+Next == UNCHANGED modno
 \* the invariant: (M) every generated module is well typed per the judgement; and it is printed,
 \* with a mutant, for the harness (G)
-Emit == LET m == ModuleN(n)  wt == ModuleWT(m) IN
+Emit == LET m == ModuleN(modno)  wt == ModuleWT(m) IN
         /\ PrintT(<<"MOD", ToJson(m)>>)
-        /\ PrintT(<<"MUT", ToJson(Mutant(m, n + Seed))>>)
-        /\ (wt \/ PrintT(<<"NOTWT", n>>))
+        /\ PrintT(<<"MUT", ToJson(Mutant(m, modno + Seed))>>)
+        /\ (wt \/ PrintT(<<"NOTWT", modno>>))
         /\ wt
-Stats == PrintT(<<"STATS", ToJson([items |-> NItems, pairs_all |-> Len(PairExprs), pairs_sel |-> Len(PairSel),
+Stats == PrintT(<<"STATS", ToJson([items |-> NItems, pairs_all |-> NPairs, pairs_sel |-> NSel, core |-> NCore,
                                    nexh |-> NExh, nrand |-> NRand, sigs |-> Cardinality(Sigs), rules |-> Cardinality(Rules),
                                    types |-> Cardinality(U), comps |-> Len(AllComps)])>>)
 ASSUME Stats
